@@ -208,7 +208,9 @@ UserKill(d) == /\ job.ex /\ job.kill = 0 /\ RoomJ /\ now + d <= MaxTime
 \* (ValidateKillTimestampUpdate) refuses any change once the timestamp has passed, so there is no such action then; an
 \* edit at the very instant of the timestamp is not modelled (discrete clock: the validator compares strictly, the
 \* controller inclusively, a window of measure zero on a real clock).
-UserRekill(d) == /\ job.ex /\ job.kill # 0 /\ job.kill > now /\ RoomJ /\ (d = 99 \/ now + d <= MaxTime)
+\* (a removed timestamp can be set again: the resourceVersion counter bounds the number of such rounds)
+RekillRvBound == 8
+UserRekill(d) == /\ job.ex /\ job.kill # 0 /\ job.kill > now /\ RoomJ /\ (d = 99 \/ now + d <= MaxTime) /\ rvc < RekillRvBound
                  /\ LET k == IF d = 99 THEN 0 ELSE now + d IN
                     /\ k # job.kill
                     /\ WriteJob([job EXCEPT !.kill = k])
